@@ -484,7 +484,7 @@ Proof. apply (sweep2_lift 5 2048 lspec_word_ok lspec_word_sweep). Qed.
 
 Definition lspec_wf (s : lspec) : bool :=
   match s with LSpec hk nbits src dst sv =>
-    (hk <? 5) && (0 <? nbits) && (nbits <? 2048) && (2 * ((nbits + 15) / 16) <=? N.of_nat (length sv))
+    (hk <? 5) && (0 <? nbits) && (nbits <? 2048) && (negb ((hk =? 0) || (hk =? 2)) || (2 * ((nbits + 15) / 16) <=? N.of_nat (length sv)))
   end.
 
 Lemma length_lspec_field x : length (lspec_field x) = 6%nat.
@@ -519,7 +519,7 @@ Proof.
   replace ((if hk =? 4 then 2 else if (hk =? 2) || (hk =? 3) then 1 else 0) <? 3) with true by (destruct (hk =? 4), ((hk =? 2) || (hk =? 3)); reflexivity).
   rewrite H14, H15. cbn [andb guard obind].
   assert (Hsl : N.of_nat (length srcpart) = if ((hk =? 0) || (hk =? 2))%bool then 2 * ((nbits + 15) / 16) else 6).
-  { subst srcpart. destruct ((hk =? 0) || (hk =? 2))%bool; [rewrite firstn_length; lia|rewrite length_lspec_field; reflexivity]. }
+  { subst srcpart. destruct ((hk =? 0) || (hk =? 2))%bool; [cbn [negb orb] in H4; rewrite firstn_length; lia|rewrite length_lspec_field; reflexivity]. }
   assert (Hdl : N.of_nat (length dstpart) = if (if hk =? 4 then 2 else if (hk =? 2) || (hk =? 3) then 1 else 0) =? 2 then 0 else 6).
   { subst dstpart. destruct (hk =? 4); [reflexivity|]. rewrite length_lspec_field. destruct ((hk =? 2) || (hk =? 3)); reflexivity. }
   pose proof (take_app (srcpart ++ dstpart) rest) as Ht. unfold Walk.blen in Ht.
@@ -1070,3 +1070,4 @@ Proof.
     replace (_ <? _)%nat with true by (symmetry; apply Nat.ltb_lt; lia).
     cbn [guard obind]. rewrite IH; [reflexivity|exact Hr|lia].
 Qed.
+
